@@ -254,6 +254,77 @@ func r042(c *Ctx, r *R) {
 			r.OK(key, fd.Pos(), "field %s is compared on both operands", f.Name())
 		}
 	}
+	// membership flags are per element: in the nested "is every element of
+	// a also in b" loops, the boolean tested after the inner loop must not
+	// be carried over from the previous outer iteration (a flag declared
+	// outside the outer loop stays true after the first match and accepts
+	// every later element unseen)
+	for _, tname := range []string{"PinOptions", "Pin"} {
+		f := c.P.Func("api", tname+".Equals")
+		if f == nil || f.Blocks == nil {
+			continue
+		}
+		isHeader := map[*ssa.BasicBlock]bool{}
+		for _, b := range f.Blocks {
+			for _, p := range b.Preds {
+				if b.Dominates(p) {
+					isHeader[b] = true
+				}
+			}
+		}
+		nflags := 0
+		for _, b := range f.Blocks {
+			iff, ok := b.Instrs[len(b.Instrs)-1].(*ssa.If)
+			if !ok {
+				continue
+			}
+			cond := iff.Cond
+			for {
+				if u, ok := cond.(*ssa.UnOp); ok && u.Op == token.NOT {
+					cond = u.X
+					continue
+				}
+				break
+			}
+			flag, ok := cond.(*ssa.Phi)
+			if !ok {
+				continue
+			}
+			// innermost loop enclosing the test
+			var L *ssa.BasicBlock
+			for h := range isHeader {
+				if h != b && h.Dominates(b) && inNaturalLoop(b, h) {
+					if L == nil || L.Dominates(h) {
+						L = h
+					}
+				}
+			}
+			if L == nil {
+				continue
+			}
+			nflags++
+			seen := map[*ssa.Phi]bool{}
+			carried := false
+			var walk func(p *ssa.Phi)
+			walk = func(p *ssa.Phi) {
+				if seen[p] {
+					return
+				}
+				seen[p] = true
+				if p.Block() == L {
+					carried = true
+				}
+				for _, e := range p.Edges {
+					if q, ok := e.(*ssa.Phi); ok {
+						walk(q)
+					}
+				}
+			}
+			walk(flag)
+			r.Check(!carried, fmt.Sprintf("api.%s.Equals:flag-per-element@%s", tname, flag.Comment), flag.Pos(), "the membership flag tested here is initialised inside the enclosing loop (one verdict per element)", fmt.Sprintf("the membership flag %q tested here is carried across iterations of the enclosing loop: after the first match every later element is accepted without being looked up, so a changed element compares equal", flag.Comment))
+		}
+		_ = nflags
+	}
 	check("PinOptions", map[string]string{"PinUpdate": "commented in the source as deliberately ignored: an update source does not change the stored options"})
 	check("Pin", nil)
 }
@@ -533,4 +604,18 @@ func r046(c *Ctx, r *R) {
 	if n == 0 {
 		r.Und("shortcut", f.Pos(), "the `pin = existing` shortcut was not found in pin()")
 	}
+}
+
+// inNaturalLoop: b belongs to the natural loop of header h, i.e. it reaches
+// the source of one of h's back edges without passing through h.
+func inNaturalLoop(b, h *ssa.BasicBlock) bool {
+	for _, p := range h.Preds {
+		if !h.Dominates(p) {
+			continue
+		}
+		if p == b || blockReachesAvoiding(b, p, h) {
+			return true
+		}
+	}
+	return false
 }
